@@ -78,8 +78,8 @@ type c17Snap struct {
 	// legacy behaviour of never removing a runtime's previous owner from the runtime-by-entity index).
 	feature261 bool
 	ents       map[signature.PublicKey]*c17EntRec
-	nodes  map[signature.PublicKey]*c17NodeRec
-	rts    map[common.Namespace]*c17RtRec
+	nodes      map[signature.PublicKey]*c17NodeRec
+	rts        map[common.Namespace]*c17RtRec
 }
 
 func (sn *c17Snap) clone() *c17Snap {
@@ -203,6 +203,32 @@ func (o *c17Oracle) read(s *Sim, tree mkvs.Tree, h int64) *c17Snap {
 	return sn
 }
 
+// fromGenesis builds the snapshot of the genesis document (the state that InitChain creates).
+func (o *c17Oracle) fromGenesis(s *Sim) *c17Snap {
+	doc := s.W.Doc
+	sn := &c17Snap{height: s.Height, epoch: doc.Beacon.Base, debond: doc.Staking.Parameters.DebondingInterval, bypass: doc.Staking.Parameters.DebugBypassStake,
+		feature261: doc.Consensus.Parameters.IsFeatureVersion(migrations.Version261),
+		ents:       map[signature.PublicKey]*c17EntRec{}, nodes: map[signature.PublicKey]*c17NodeRec{}, rts: map[common.Namespace]*c17RtRec{}}
+	for _, se := range doc.Registry.Entities {
+		var e entity.Entity
+		if err := cbor.Unmarshal(se.Blob, &e); err != nil {
+			core.Harnessf("c17: genesis entity does not decode: %v", err)
+		}
+		sn.ents[e.ID] = &c17EntRec{raw: cbor.Marshal(se), ent: &e}
+	}
+	for _, x := range doc.Registry.Nodes {
+		var n node.Node
+		if err := cbor.Unmarshal(x.Blob, &n); err != nil {
+			core.Harnessf("c17: genesis node does not decode: %v", err)
+		}
+		sn.nodes[n.ID] = &c17NodeRec{raw: cbor.Marshal(x), n: &n}
+	}
+	for _, rt := range doc.Registry.Runtimes {
+		sn.rts[rt.ID] = &c17RtRec{raw: cbor.Marshal(rt), rt: rt}
+	}
+	return sn
+}
+
 func (o *c17Oracle) Init(s *Sim) *core.Violation {
 	o.ss = c17SessionFor(s.W)
 	// The simulated consensus engine lets validators vote whose consensus key it knows: make the
@@ -220,6 +246,10 @@ func (o *c17Oracle) Init(s *Sim) *core.Violation {
 	}
 	ref := s.Ref()
 	if ref == nil || s.Height < 1 {
+		// Nothing is committed before the first block: the model starts from the genesis document
+		// (the first block's result is compared with it like any other).
+		o.prev = o.fromGenesis(s)
+		o.track(o.prev, nil)
 		return nil
 	}
 	tree, err := ref.TreeAt(s.Height)
@@ -243,9 +273,12 @@ func (o *c17Oracle) Init(s *Sim) *core.Violation {
 type c17Tx struct {
 	signer signature.PublicKey
 	tx     transaction.Transaction
+	// authentic: the envelope carries a valid signature of signer over the transaction under this
+	// chain's transaction context (verified by the harness with plain ed25519).
+	authentic bool
 }
 
-func c17Decode(raw []byte) *c17Tx {
+func c17Decode(raw []byte, chainContext string) *c17Tx {
 	var st transaction.SignedTransaction
 	if cbor.Unmarshal(raw, &st) != nil {
 		return nil
@@ -255,6 +288,7 @@ func c17Decode(raw []byte) *c17Tx {
 		return nil
 	}
 	d.signer = st.Signature.PublicKey
+	d.authentic = c17Verify(d.signer, signature.Context("oasis-core/consensus: tx for chain "+chainContext), st.Blob, st.Signature.Signature)
 	return &d
 }
 
@@ -284,7 +318,7 @@ func (o *c17Oracle) judge(m *c17Snap, bt *BuiltTx, d *c17Tx) *c17Verdict {
 			vd.admissible, vd.whyNot = false, why
 		}
 	}
-	if !bt.Authentic {
+	if !d.authentic {
 		deny("transaction-envelope-not-validly-signed")
 	}
 	switch d.tx.Method {
@@ -545,7 +579,7 @@ func (o *c17Oracle) replay(s *Sim, h int64, pre, post *c17Snap, txs []*BuiltTx, 
 	}
 	for i, bt := range txs {
 		tr := res.TxResults[i]
-		d := c17Decode(bt.Raw)
+		d := c17Decode(bt.Raw, s.W.Doc.ChainContext())
 		if d == nil {
 			continue
 		}
@@ -713,6 +747,9 @@ func (o *c17Oracle) probes(s *Sim, bt *BuiltTx, d *c17Tx, vd *c17Verdict, in *c1
 		default:
 			s.St.Inc("probe.c17.entity_removal_refused_other")
 		}
+	}
+	if d.tx.Method == registry.MethodRegisterNode && vd.authorised && !vd.admissible && !ok && strings.HasPrefix(vd.class, "reregister-after-removal") {
+		s.St.Inc("probe.c17.reregistration_refused_key_taken_meanwhile")
 	}
 	if d.tx.Method == registry.MethodRegisterNode && vd.authorised && vd.admissible {
 		s.St.Inc("probe.c17.node." + vd.class + "." + out)
